@@ -4,6 +4,7 @@
 #include "vf/config.hpp"
 
 #include <array>
+#include <deque>
 #include <list>
 #include <vector>
 
@@ -92,8 +93,26 @@ struct Taker  // trivially copyable, constructible from Giver by copy or by move
     }
 };
 static_assert(std::is_trivially_copyable_v<Taker>);
+// trivial copy constructor but a user-provided move constructor: T(std::move(item)) is not a bit copy
+struct CopyTrivMove
+{
+    int v = 0;
+    int copied_from = 0;  // never changes: copying is trivial
+    int moved_from = 0;
+    char origin = 'V';  // 'V' value constructed / copied bitwise, 'M' move constructed
+    CopyTrivMove() = default;
+    explicit CopyTrivMove(int x) : v(x) {}
+    CopyTrivMove(const CopyTrivMove&) = default;
+    CopyTrivMove& operator=(const CopyTrivMove&) = default;
+    CopyTrivMove(CopyTrivMove&& o) noexcept : v(o.v), origin('M')
+    {
+        ++o.moved_from;
+        o.v = -1;
+    }
+};
+static_assert(std::is_trivially_copy_constructible_v<CopyTrivMove> && !std::is_trivially_copyable_v<CopyTrivMove>);
 template <class S>
-inline constexpr bool IS_CATEGORY_SOURCE = std::is_same_v<S, Lend> || std::is_same_v<S, Giver>;
+inline constexpr bool IS_CATEGORY_SOURCE = std::is_same_v<S, Lend> || std::is_same_v<S, Giver> || std::is_same_v<S, CopyTrivMove>;
 
 // key(): a comparable summary of a stored / expected value
 template <class T>
@@ -107,6 +126,8 @@ long long key(const T& x)
     }
     else if constexpr (std::is_same_v<T, Twice> || std::is_same_v<T, Taker>)
         return x.v;
+    else if constexpr (std::is_same_v<T, CopyTrivMove>)
+        return x.v * 4 + (x.origin == 'M' ? 1 : 0);  // value and whether it was move constructed
     else if constexpr (std::is_same_v<T, EnumI>)
         return static_cast<long long>(x);
     else if constexpr (std::is_same_v<T, std::string>)
@@ -145,6 +166,8 @@ S make_source(int i, int salt)
         return Lend(v);
     else if constexpr (std::is_same_v<S, Giver>)
         return Giver(v);
+    else if constexpr (std::is_same_v<S, CopyTrivMove>)
+        return CopyTrivMove(v);
     else if constexpr (std::is_same_v<S, WrapE>)
         return WrapE{v};
     else if constexpr (std::is_same_v<S, Triple>)
@@ -193,6 +216,8 @@ long long source_key(const S& s)
         return (static_cast<long long>(s.v) + 1) * 10000 + s.as_lvalue * 100 + s.as_rvalue;
     else if constexpr (std::is_same_v<S, Giver>)
         return (static_cast<long long>(s.v) + 1) * 10000 + s.copied_from * 100 + s.moved_from;
+    else if constexpr (std::is_same_v<S, CopyTrivMove>)
+        return (static_cast<long long>(s.v) + 1) * 10000 + 0 * 100 + s.moved_from;
     else
         return key(s);
 }
@@ -261,10 +286,12 @@ enum Form
     F_LIST_ITERATOR,
     F_MOVE_ITERATOR,
     F_INPUT_ITERATOR,
+    F_REVERSE_ITERATOR,
+    F_DEQUE_ITERATOR,
     F_COUNT
 };
 const char* FORM_NAME[F_COUNT] = {"std::array&", "std::array&&", "std::vector&", "std::vector&&", "C array&", "std::list&", "std::list&&", "generated input range", "pointer",
-                                  "vector::iterator", "list::iterator", "move_iterator", "counting input iterator"};
+                                  "vector::iterator", "list::iterator", "move_iterator", "counting input iterator", "reverse_iterator", "deque::iterator"};
 
 struct Stats
 {
@@ -293,7 +320,8 @@ void cell(const char* pair_name, int n)
 {
     constexpr bool COPYABLE_S = std::is_copy_constructible_v<S>;
     constexpr bool RVALUE_FORM = FORM == F_ARRAY_RVALUE || FORM == F_VECTOR_RVALUE || FORM == F_LIST_RVALUE || FORM == F_MOVE_ITERATOR;
-    constexpr bool ITERATOR_FORM = FORM == F_POINTER || FORM == F_CONTIGUOUS_ITERATOR || FORM == F_LIST_ITERATOR || FORM == F_MOVE_ITERATOR || FORM == F_INPUT_ITERATOR;
+    constexpr bool ITERATOR_FORM = FORM == F_POINTER || FORM == F_CONTIGUOUS_ITERATOR || FORM == F_LIST_ITERATOR || FORM == F_MOVE_ITERATOR || FORM == F_INPUT_ITERATOR ||
+                                   FORM == F_REVERSE_ITERATOR || FORM == F_DEQUE_ITERATOR;
     constexpr bool GENERATED = FORM == F_GENERATED_RANGE || FORM == F_INPUT_ITERATOR;
     // which cells exist
     if constexpr (!FIXED && ITERATOR_FORM)
@@ -304,6 +332,8 @@ void cell(const char* pair_name, int n)
         return;
     else if constexpr ((FORM == F_ARRAY_LVALUE || FORM == F_ARRAY_RVALUE || FORM == F_CARRAY_LVALUE) && !std::is_default_constructible_v<S>)
         return;  // fixed-extent containers are filled by assignment below
+    else if constexpr (FORM == F_DEQUE_ITERATOR && (!std::is_copy_assignable_v<S> || IsTracked<S>::value))
+        return;
     else
     {
         const int salt = FORM + (FIXED ? 0 : 5);
@@ -321,7 +351,10 @@ void cell(const char* pair_name, int n)
         for (int i = 0; i < n; ++i)
         {
             const S s = make_source<S>(i, salt);
-            expected.push_back(expected_key<T, S>(s));
+            if constexpr (std::is_same_v<T, CopyTrivMove>)
+                expected.push_back(static_cast<long long>(s.v) * 4 + (RVALUE_FORM ? 1 : 0));  // moved in from rvalue sources, copied otherwise
+            else
+                expected.push_back(expected_key<T, S>(s));
             src_before.push_back(source_key(s));
         }
         std::vector<long long> src_after;
@@ -341,9 +374,17 @@ void cell(const char* pair_name, int n)
                 moves_mid = registry().move_constructed - moves_mid;
                 copies_mid = registry().copy_constructed - copies_mid;
             };
+            auto normalize = [](auto& container)
+            {
+                // source items were moved into their container: forget that (only what emplace_back does counts)
+                if constexpr (std::is_same_v<S, CopyTrivMove>)
+                    for (auto& x : container) x.origin = 'V';
+                (void)container;
+            };
             auto fill = [&](auto& container)
             {
                 for (int i = 0; i < n; ++i) container.push_back(make_source<S>(i, salt));
+                normalize(container);
             };
             auto keys_of = [&](auto& container)
             {
@@ -360,6 +401,28 @@ void cell(const char* pair_name, int n)
                 else if constexpr (FORM == F_CONTIGUOUS_ITERATOR) emplace(c.begin());
                 else emplace(std::make_move_iterator(c.begin()));
                 keys_of(c);
+            }
+            else if constexpr (FORM == F_REVERSE_ITERATOR)
+            {
+                // random access, not contiguous in iteration order: items must come out in reverse
+                std::vector<S> c;
+                c.reserve(un + 1);
+                for (int i = n - 1; i >= 0; --i) c.push_back(make_source<S>(i, salt));
+                normalize(c);
+                emplace(c.rbegin());
+                for (auto it = c.rbegin(); it != c.rend(); ++it) src_after.push_back(source_key(*it));
+            }
+            else if constexpr (FORM == F_DEQUE_ITERATOR)
+            {
+                // random access over several blocks
+                std::deque<S> c;
+                for (int i = 0; i < 1536; ++i) c.push_back(make_source<S>(0, salt));  // 1536 is a multiple of every block length: the window straddles a block boundary
+                for (int i = 0; i < 1536 - (n + 1) / 2; ++i) c.pop_front();
+                for (int i = 0; i < (n + 1) / 2; ++i) c[static_cast<size_t>(i)] = make_source<S>(i, salt);
+                for (int i = (n + 1) / 2; i < n; ++i) c.push_back(make_source<S>(i, salt));
+                normalize(c);
+                emplace(c.begin());
+                for (int i = 0; i < n; ++i) src_after.push_back(source_key(c[static_cast<size_t>(i)]));
             }
             else if constexpr (FORM == F_LIST_LVALUE || FORM == F_LIST_RVALUE || FORM == F_LIST_ITERATOR)
             {
@@ -442,7 +505,7 @@ void cell(const char* pair_name, int n)
                 if (!RVALUE_FORM && IS_CATEGORY_SOURCE<S>)
                 {
                     for (size_t i = 0; i < src_after.size(); ++i)
-                        if (src_after[i] != src_before[i] + 100)
+                        if (src_after[i] != src_before[i] + (std::is_same_v<S, CopyTrivMove> ? 0 : 100))
                             violation("C15", "lvalue_source_modified", fmt("%s: lvalue source item %zu: value / lvalue conversions / rvalue conversions changed from %lld to %lld (expected exactly one lvalue conversion)", name.c_str(), i, src_before[i], src_after[i]));
                 }
                 else if (!RVALUE_FORM)
@@ -564,6 +627,7 @@ int main(int argc, char** argv)
     pair<int, Lend>("int <- class with ref-qualified conversion operators");
     pair<Taker, Giver>("trivially copyable class <- class (copy or move converting constructor)");
     pair<long long, Lend>("long long <- class with ref-qualified conversion operators");
+    pair<CopyTrivMove, CopyTrivMove>("class with trivial copy but user-provided move constructor <- same");
 #elif VF_GROUP == 4
     pair<Tracked<8>, Tracked<8>>("Tracked <- Tracked");
     pair<std::unique_ptr<int>, std::unique_ptr<int>>("unique_ptr <- unique_ptr");
